@@ -18,7 +18,7 @@ from pathlib import Path
 
 from . import core
 from . import flat_export as fe
-from .c15 import neutralise, SEEDS, ADVERSARIAL_SEEDS, ALL_FEATURES
+from .c15 import neutralise, SEEDS, ADVERSARIAL_SEEDS, ALL_FEATURES, WIDE_SEEDS
 
 CONSTANT_TYPES = {"Num", "Str", "Bytes", "NameConstant", "Ellipsis"}
 
@@ -103,7 +103,8 @@ class E2E:
         return collections.Counter((t, ln) for t, ln in r["nodes"]), tree
 
     def got_from_labels(self, labels, exp):
-        ptypes = self.ptypes | {t for (t, _) in exp}
+        # `alias`: "import aliases skipped" — no occurrence at all is expected for that type
+        ptypes = self.ptypes | {t for (t, _) in exp} | {"alias"}
         got = collections.Counter()
         for name, spans in labels:
             if name.startswith("node:") and name[5:] in ptypes:
@@ -345,7 +346,7 @@ def run(ctx):
                 ctx.broken.append(f"corr:{stream}:bindings")
                 ctx.cov.setdefault("corr_replay", {"stream": stream, "lines": lines[:60], "impl": ra, "model": rb})
 
-        sources = list(SEEDS) + list(ADVERSARIAL_SEEDS) + MORE_ADVERSARIAL
+        sources = list(SEEDS) + list(ADVERSARIAL_SEEDS) + MORE_ADVERSARIAL + list(WIDE_SEEDS)
         gen = fe.Gen(ctx.rng, max_depth=4, adv=0.25)
         n_gen = 120 if ctx.tier == "quick" else 2000
         for i in range(n_gen):
@@ -382,9 +383,10 @@ def run(ctx):
         t1 = ctx.elapsed()
         pool = ["/a/_type=X", "/_type=M", "/a/_pos=1:1-", "/a/b/_pos=2:1-0-", "/a/b/_type=Y", "/a/b/c/_pos=3:", "/a/x=1",
                 "/ab/_type=Z", "/ab/_pos=4:", "/a/_type=X/_pos=5:", "/a/1/_pos=6:", "/a/b", "/a/", "", "/a/b/c/d=",
-                "/a/_pos=", "x=/a/_type=Q", "/a/_pos=7", "/a/_pos=8:1:2", "/a/b_1/_pos=9:0-"]
-        cases = [list(t) for k in range(4) for t in itertools.product(pool, repeat=k)]
-        for _ in range(2000 if ctx.tier == "quick" else 40000):
+                "/a/_pos=", "x=/a/_type=Q", "/a/_pos=7", "/a/_pos=8:1:2", "/a/b_1/_pos=9:0-",
+                "/a/1/_type=P", "/a/10/_type=P", "/a/10/_pos=10:1-10-", "/a/100/_pos=11:1-100-", "/a/9/_type=P", "/a/99/x=1"]
+        cases = [list(t) for k in range(4 if ctx.tier == "thorough" else 3) for t in itertools.product(pool, repeat=k)]
+        for _ in range(6000 if ctx.tier == "quick" else 40000):
             cases.append([ctx.rng.choice(pool) for _ in range(ctx.rng.randint(4, 9))])
         if node_pat is not None:
             outs = fe.batch(drv, [{"op": "c01.matches", "lines": c} for c in cases])
@@ -404,7 +406,7 @@ def run(ctx):
         t1 = ctx.elapsed()
         e2e = E2E(ctx, drv, (pp, lp, cli_tag, make_db, ut))
         progs = []
-        for i, src in enumerate(SEEDS + ADVERSARIAL_SEEDS + MORE_ADVERSARIAL):
+        for i, src in enumerate(SEEDS + ADVERSARIAL_SEEDS + MORE_ADVERSARIAL + WIDE_SEEDS):
             progs.append((f"seed{i}", src))
         corpus = sorted((core.REPO / "examples").glob("**/programs/**/*.py"))
         ctx.rng.shuffle(corpus)
